@@ -51,6 +51,7 @@ def opOfJson (j : Json) : Except String Op := do
   | "setKey" => do .ok (.setKey (← asNat (← argAt j 1)) (← asStr (← argAt j 2)) (← asNat (← argAt j 3)))
   | "delKey" => do .ok (.delKey (← asNat (← argAt j 1)) (← asStr (← argAt j 2)))
   | "getitem" => do .ok (.getitem (← asNat (← argAt j 1)) (← asStr (← argAt j 2)))
+  | "get" => do .ok (.get (← asNat (← argAt j 1)) (← asStr (← argAt j 2)) (← leafOfJson (← argAt j 3)))
   | "items" => do .ok (.items (← asNat (← argAt j 1)))
   | "freeze" => do .ok (.freeze (← asNat (← argAt j 1)))
   | "unfreeze" => do .ok (.unfreeze (← asNat (← argAt j 1)))
